@@ -7,6 +7,7 @@ import (
 	"errors"
 	"fmt"
 	"io"
+	"runtime"
 	"strings"
 	"sync"
 	"sync/atomic"
@@ -186,6 +187,9 @@ func plans() []plan {
 	for i := 0; i < mon.Pick(300, 20000); i++ {
 		ps = append(ps, plan{"addcloser-placed"})
 	}
+	for i := 0; i < mon.Pick(400, 30000); i++ {
+		ps = append(ps, plan{"racing"})
+	}
 	return ps
 }
 
@@ -193,8 +197,9 @@ func TestCheck(t *testing.T) {
 	rec = mon.Open("C12")
 	defer rec.Close()
 	rec.Note("rule", "a case is one topology run against the real managers in a synctest bubble: 0-4 runners drawn from {nil, error, context.Canceled, wrapped Canceled, block-until-cancel (returning nil / an error / ctx.Err), gate-released (nil / error)} finishing in a seeded order, parent context cancelled or not; for the closer manager additionally 0-4 closers of the four accepted types with seeded durations and errors, grace period unset / generous / exceeded, Close before / during / after Run (repeated, concurrent), AddCloser during the run and AddCloser parked at its decision point while Run enters the closing phase, unsupported closer types. The sequence-stamped event log is judged offline. Non-trivial = at least one runner or closer; distinct = distinct topology description.")
-	rec.Note("require", []string{"runner.first_return_cancels_others", "runner.parent_cancel", "closer.fatal_fired", "closer.fatal_not_fired", "closer.close_during_run", "closer.close_before_run", "closer.concurrent_close", "closer.addcloser_during_run", "placed.addcloser_parked", "closer.unsupported_type_rejected", "join.errors_checked"})
+	rec.Note("require", []string{"runner.first_return_cancels_others", "runner.parent_cancel", "closer.fatal_fired", "closer.fatal_not_fired", "closer.close_during_run", "closer.close_before_run", "closer.concurrent_close", "closer.addcloser_during_run", "placed.addcloser_parked", "closer.unsupported_type_rejected", "join.errors_checked", "racing.addcloser_accepted", "racing.addcloser_rejected"})
 	ps := plans()
+	rec.Planned(len(ps))
 	for idx, pl := range ps {
 		if !mon.Mine(idx) {
 			continue
@@ -205,6 +210,8 @@ func TestCheck(t *testing.T) {
 			runRunner(t, idx, rng)
 		case "closer":
 			runCloser(t, idx, rng, false)
+		case "racing":
+			runRacing(t, idx, rng)
 		default:
 			runCloser(t, idx, rng, true)
 		}
@@ -843,3 +850,134 @@ func runCloser(t *testing.T, idx int, rng *mon.RNG, placed bool) {
 	concurrency.VerifHook.Store(nil)
 	finish(idx, w, res, nr+nc > 0)
 }
+
+// runRacing: Run, Close and several AddCloser calls are issued at the same
+// time from different goroutines (no lock-step), under the race detector.
+// Judged: every closer whose AddCloser returned nil is invoked exactly once,
+// none before the last runner returned, Run/Close return after the last
+// closer, and both report the same joined error.
+func runRacing(t *testing.T, idx int, rng *mon.RNG) {
+	nr := rng.Range(1, 3)
+	nadd := rng.Range(1, 4)
+	withClose := rng.Chance(2, 3)
+	yield := rng.Intn(4)
+	w := &world{idx: idx, mode: "racing", desc: fmt.Sprintf("runners=%d addclosers=%d close=%v yield=%d", nr, nadd, withClose, yield)}
+	rec.Begin(idx, w.mode+" "+w.desc)
+	res := mon.Bubble(t, func() {
+		var runners []concurrency.Runner
+		for i := 0; i < nr; i++ {
+			kind := "untilcancel-nil"
+			if i == 0 && !withClose {
+				kind = "nil" // somebody has to end the run
+			}
+			runners = append(runners, w.runner(i, rspec{kind}, nil))
+		}
+		log := logger.NewLogger("c12")
+		log.SetOutputLevel(logger.FatalLevel)
+		m := concurrency.NewRunnerCloserManager(log, nil, runners...)
+		var wg sync.WaitGroup
+		var mu sync.Mutex
+		accepted := map[int]bool{}
+		var runErr, closeErr error
+		closed := false
+		start := make(chan struct{})
+		wg.Add(1)
+		go func() {
+			defer wg.Done()
+			<-start
+			runErr = m.Run(context.Background())
+			w.ev("runret", 0, runErr)
+		}()
+		for j := 0; j < nadd; j++ {
+			wg.Add(1)
+			go func(j int) {
+				defer wg.Done()
+				<-start
+				for y := 0; y < yield*j; y++ {
+					runtimeGosched()
+				}
+				sent := &sentinel{fmt.Sprintf("racing-closer-%d", j)}
+				err := m.AddCloser(w.closer(j, cspec{Type: ctypes[j%4], Err: j%2 == 0}, sent))
+				mu.Lock()
+				if err == nil {
+					accepted[j] = true
+					rec.Count("racing.addcloser_accepted", 1)
+				} else {
+					rec.Count("racing.addcloser_rejected", 1)
+				}
+				mu.Unlock()
+			}(j)
+		}
+		if withClose {
+			wg.Add(1)
+			go func() {
+				defer wg.Done()
+				<-start
+				for y := 0; y < yield*2; y++ {
+					runtimeGosched()
+				}
+				w.ev("closecall", 1, nil)
+				closeErr = m.Close()
+				w.ev("closeret", 1, closeErr)
+				mu.Lock()
+				closed = true
+				mu.Unlock()
+			}()
+		}
+		close(start)
+		wg.Wait()
+		evs := w.events()
+		var lastRunnerRet, runRet, firstCStart, lastCRet int64
+		cstarts := map[int]int{}
+		for _, e := range evs {
+			switch e.kind {
+			case "rret":
+				if e.seq > lastRunnerRet {
+					lastRunnerRet = e.seq
+				}
+			case "runret":
+				runRet = e.seq
+			case "cstart":
+				cstarts[e.id]++
+				if firstCStart == 0 {
+					firstCStart = e.seq
+				}
+			case "cret":
+				if e.seq > lastCRet {
+					lastCRet = e.seq
+				}
+			}
+		}
+		ranAtAll := false
+		for _, e := range evs {
+			if e.kind == "rstart" {
+				ranAtAll = true
+			}
+		}
+		if !ranAtAll {
+			return // Close won the race against Run: the manager never ran, closers are not owed
+		}
+		for j := range accepted {
+			if cstarts[j] != 1 {
+				w.violation("racing/closer-invocations", fmt.Sprintf("closer %d was accepted (AddCloser returned nil) but invoked %d times", j, cstarts[j]))
+			}
+		}
+		for j, n := range cstarts {
+			if !accepted[j] && n > 0 {
+				w.violation("racing/rejected-closer-invoked", fmt.Sprintf("closer %d was rejected by AddCloser but invoked", j))
+			}
+		}
+		if firstCStart != 0 && firstCStart < lastRunnerRet {
+			w.violation("racing/closer-before-last-runner", "a closer was started before the last runner had returned")
+		}
+		if lastCRet > runRet {
+			w.violation("racing/run-returned-before-closers", "Run returned before the last closer had returned")
+		}
+		if closed && fmt.Sprint(closeErr) != fmt.Sprint(runErr) {
+			w.violation("racing/close-error-differs", fmt.Sprintf("Close returned %v, Run returned %v", closeErr, runErr))
+		}
+	})
+	finish(idx, w, res, true)
+}
+
+func runtimeGosched() { runtime.Gosched() }
